@@ -286,7 +286,7 @@ def shift_of(tab: dict, lo: int, hi: int):
 
 ANOMALY_KINDS = ('gap', 'day_order', 'infinite_loop', 'not_nearest', 'sanity')
 CLASS_CROSSING = 'F11'       # the event time crosses 00:00 UTC within the affected days
-CLASS_FOLLOWING = 'F15'      # an event still ahead is not looked at because astral files it under the previous UTC date
+CLASS_FOLLOWING = 'F16'      # an event still ahead is not looked at because astral files it under the previous UTC date
 
 
 def classify(a: dict):
@@ -304,7 +304,7 @@ def classify(a: dict):
 
 def check_case(c: dict, ref: Ref) -> tuple[list, collections.Counter]:
     """-> (anomalies, stats).  anomaly: {'what', 'kind', 'step', 'window': [loc, key, lo, hi] | None,
-    'oracle_window': astral's answers for the window, 'skipped': [date, answer] | None, 'class': 'F11'|'F15'|None}"""
+    'oracle_window': astral's answers for the window, 'skipped': [date, answer] | None, 'class': 'F11'|'F16'|None}"""
     st = collections.Counter()
     out = []
     tabs = tables_of(c)
@@ -631,7 +631,7 @@ def run(prop: str, tier: str, seed: int, scratch: Path, replay=None, model_ok=Tr
                                          'below)',
                   'anomaly_classes': {'F11': 'the recorded event time crosses 00:00 UTC within the affected days '
                                              '(or an answer lies before its own UTC date)',
-                                      'F15': 'the skipped event is astral\'s answer for UTC date d but lies on date d+1 '
+                                      'F16': 'the skipped event is astral\'s answer for UTC date d but lies on date d+1 '
                                              '(time_at_elevation): the lookup by the reference instant\'s date never asks for it',
                                       'None': 'anything else: a violation'},
                   'anomalies_by_class': dict(collections.Counter(str(v.get('class')) for v in spec_violations))},
